@@ -48,6 +48,8 @@ pub fn step(ctx: &Ctx, w: &World, ev: &mut Ev) {
             // trade included), when it can be computed and is more than a rounding away from the engine's figure
             {
                 let recs = super::c18::vamm_records(ctx, v);
+                let in_window = recs.iter().filter(|r| r.time + 900 > ctx.post.time).count();
+                ev.count(if in_window > 512 { "twap15_window_snapshots/over_512" } else if in_window > 100 { "twap15_window_snapshots/101_to_512" } else { "twap15_window_snapshots/up_to_100" });
                 match twap_output_ref(&recs, p.dir, p.size.unsigned_abs(), 900, ctx.post.time, ctx.post.vamms[v].decimals.max(1)) {
                     TwapRef::Value(tn) => {
                         if tn.abs_diff(pp.twap_n) > 1 {
